@@ -515,13 +515,15 @@ pub fn cases(ctx: &Ctx, section: &str, i: u64) -> Vec<Case> {
                     let mut t = TaskSpec::compile(0, "test.rssl", target);
                     t.no_pipeline = true;
                     t.validate_layout = n % 5 == 0;
-                    out.push(total_case(
+                    let mut c = total_case(
                         &format!("W5:snippet#{}@{} {label}", lo + si, target.name()),
                         snippet_fs(&text),
                         t,
                         key(&mut rng),
                         STACK_MAIN,
-                    ));
+                    );
+                    c.params = crate::json::Json::obj().with("baked_fault", crate::json::Json::Bool(true));
+                    out.push(c);
                 }
             }
             out
